@@ -200,6 +200,9 @@ template<class S> static inline void emit_bad_arg(const S& s, const char* key, i
   Ev("BadArg").i(key, id).i("k", k).b("upper", upper).b("threw", threw).emit();
 }
 
+// fold a real number into the integer range TLC can read: NaN and out-of-range values become the sentinels +-2 000 000 000, so
+// that a wild value reaches the specification as a mismatch instead of breaking the trace machinery
+static inline long long qint(double x) { if (!(x == x)) return 2000000000LL; if (x > 2e9) return 2000000000LL; if (x < -2e9) return -2000000000LL; return (long long)std::llround(x); }
 static inline long long fl(double x) { if (!(x == x)) return -1; double f = std::floor(x); return f > 2e9 ? 2000000000LL : (f < -2e9 ? -2000000000LL : (long long)f); }
 
 struct View {            // decoded public images of a sketch
@@ -299,8 +302,8 @@ template<class S> static inline void est_fields(Ev& r, const S& s) {
   // relative half-widths of the bounds in ppm of the estimate (unit conversion; compared with sd * RSE(lg_k) by the specification)
   std::vector<long long> lbW, ubW;
   for (int k = 0; k < 3; k++) {
-    lbW.push_back(est > 0 ? std::min(2000000000LL, (long long)std::llround((est - lb[k]) / est * 1e6)) : -1);
-    ubW.push_back(est > 0 ? std::min(2000000000LL, (long long)std::llround((ub[k] - est) / est * 1e6)) : -1);
+    lbW.push_back(est > 0 ? qint((est - lb[k]) / est * 1e6) : -1);
+    ubW.push_back(est > 0 ? qint((ub[k] - est) / est * 1e6) : -1);
   }
   r.d("est", est).d("cest", cest).dl("lb", lb).dl("ub", ub).i("estF", fl(est)).il("lbF", lbF).il("ubF", ubF).il("lbW", lbW).il("ubW", ubW);
 }
